@@ -247,6 +247,7 @@ func makeView(ws *WalkScn, blocks []*commonmark.RootBlock) *walkView {
 type tapeReader struct {
 	tape string
 	pos  int
+	skip int // callbacks answered "descend / continue" before the tape starts (WalkScn.TapeSkip)
 }
 
 // walkCallbackPanic is the value a callback panics with when the tape says
@@ -257,6 +258,10 @@ type walkCallbackPanic struct{}
 // next returns the decision for the next callback: true = descend/continue.
 // 'P' on the tape makes the callback panic instead of returning.
 func (t *tapeReader) next() bool {
+	if t.skip > 0 {
+		t.skip--
+		return true
+	}
 	d := true
 	if t.pos < len(t.tape) {
 		if t.tape[t.pos] == 'P' {
@@ -272,7 +277,7 @@ func (t *tapeReader) next() bool {
 // refWalk is the reference model: a plain recursive walker.
 func refWalk(v *walkView, ws *WalkScn) []walkEvent {
 	var hist []walkEvent
-	tp := &tapeReader{tape: ws.Tape}
+	tp := &tapeReader{tape: ws.Tape, skip: ws.TapeSkip}
 	var rec func(n, parent commonmark.Node, pb *commonmark.Block, idx int) bool
 	rec = func(n, parent commonmark.Node, pb *commonmark.Block, idx int) (abort bool) {
 		if !ws.PreNil {
@@ -334,7 +339,7 @@ type walkObs struct {
 // realWalk drives commonmark.Walk with the same tape.
 func realWalk(v *walkView, ws *WalkScn, blocks []*commonmark.RootBlock, histCap int, maxCallbacks int) *walkObs {
 	obs := &walkObs{}
-	tp := &tapeReader{tape: ws.Tape}
+	tp := &tapeReader{tape: ws.Tape, skip: ws.TapeSkip}
 	var zero commonmark.Node
 	inspect := func(c *commonmark.Cursor, post bool) walkEvent {
 		ev := walkEvent{post, c.Node(), c.Parent(), c.ParentBlock(), c.Index()}
@@ -365,6 +370,7 @@ func realWalk(v *walkView, ws *WalkScn, blocks []*commonmark.RootBlock, histCap 
 	var sameOpts *commonmark.WalkOptions
 	depth, nestedCnt := 0, 0
 	sequel := false
+	sequelCap := 300000
 	warming := false
 	nested := func(c *commonmark.Cursor, before walkEvent) {
 		if !ws.Reentrant || len(blocks) == 0 || obs.NestedWalks >= 150 {
@@ -407,7 +413,7 @@ func realWalk(v *walkView, ws *WalkScn, blocks []*commonmark.RootBlock, histCap 
 			}
 			if sequel {
 				obs.SequelHist = append(obs.SequelHist, walkEvent{false, c.Node(), c.Parent(), c.ParentBlock(), c.Index()})
-				if len(obs.SequelHist) > 300000 {
+				if len(obs.SequelHist) > sequelCap {
 					panic(walkOverrun{})
 				}
 				return true
@@ -441,7 +447,7 @@ func realWalk(v *walkView, ws *WalkScn, blocks []*commonmark.RootBlock, histCap 
 			}
 			if sequel {
 				obs.SequelHist = append(obs.SequelHist, walkEvent{true, c.Node(), c.Parent(), c.ParentBlock(), c.Index()})
-				if len(obs.SequelHist) > 300000 {
+				if len(obs.SequelHist) > sequelCap {
 					panic(walkOverrun{})
 				}
 				return true
@@ -486,6 +492,10 @@ func realWalk(v *walkView, ws *WalkScn, blocks []*commonmark.RootBlock, histCap 
 		// the caller keeps its options value and walks again, to completion
 		obs.SequelRan = true
 		sequel = true
+		// a complete walk makes at most two callbacks per node of the view;
+		// anything beyond that is a runaway walk (the bound follows the tree:
+		// a list of 130 000 items legitimately needs 800 000 callbacks)
+		sequelCap = 2*countNodes(v, v.root, 1<<22) + 16
 		if ws.GC {
 			collect()
 			obs.Collections++
@@ -505,6 +515,21 @@ func realWalk(v *walkView, ws *WalkScn, blocks []*commonmark.RootBlock, histCap 
 		sequel = false
 	}
 	return obs
+}
+
+// countNodes counts the nodes of the view below (and including) n, up to limit.
+func countNodes(v *walkView, n commonmark.Node, limit int) int {
+	total := 0
+	stack := []commonmark.Node{n}
+	for len(stack) > 0 && total < limit {
+		cur := stack[len(stack)-1]
+		stack = stack[:len(stack)-1]
+		total++
+		for i, c := 0, v.count(cur); i < c; i++ {
+			stack = append(stack, v.at(cur, i))
+		}
+	}
+	return total
 }
 
 func describeNode(n commonmark.Node) string {
